@@ -184,6 +184,9 @@ where
   /// - `Err(RecvError::Disconnected)`: Returned if the `TopicSender` is dropped
   ///   and all messages in this receiver's mailbox have been consumed.
   pub fn recv(&self) -> Result<(K, T), RecvError> {
+    if self.closed.load(Ordering::Relaxed) {
+      return Err(RecvError::Disconnected);
+    }
     self.consumer.recv_sync()
   }
 
@@ -197,6 +200,9 @@ where
   /// - `Err(TryRecvError::Disconnected)`: The sender has been dropped and the
   ///   mailbox is empty.
   pub fn try_recv(&self) -> Result<(K, T), TryRecvError> {
+    if self.closed.load(Ordering::Relaxed) {
+      return Err(TryRecvError::Disconnected);
+    }
     self.consumer.try_recv()
   }
 
@@ -208,10 +214,7 @@ where
   /// - `Err(RecvErrorTimeout::Disconnected)` if the channel is disconnected.
   pub fn recv_timeout(&self, timeout: Duration) -> Result<(K, T), RecvErrorTimeout> {
     if self.closed.load(Ordering::Relaxed) {
-      return self
-        .consumer
-        .try_recv()
-        .map_err(|_| RecvErrorTimeout::Disconnected);
+      return Err(RecvErrorTimeout::Disconnected);
     }
     self.consumer.recv_timeout_sync(timeout)
   }
@@ -309,7 +312,9 @@ where
 
   fn close_internal(&self) {
     if let Some(dispatcher) = self.dispatcher.upgrade() {
-      let topics_to_unsubscribe: Vec<K> = self.subscriptions.lock().drain().collect();
+      // `unsubscribe` removes each topic from the set itself (and returns early for a topic
+      // that is not in it), so the set must not be drained beforehand.
+      let topics_to_unsubscribe: Vec<K> = self.subscriptions.lock().iter().cloned().collect();
       for topic in topics_to_unsubscribe {
         self.unsubscribe(&topic);
       }
